@@ -59,6 +59,10 @@ def _variants():
         for cfg in ("plain", "pass", "multi"):
             vs.append({"name": "%s-cdef-ddef-%s" % (strat, cfg), "strat": strat, "chunk": "max",
                        "cap": None, "dbuf": None, "cfg": cfg})
+    # multi-line search under a heap limit that just suffices for the TRANSCODED text (which may be shorter than the file)
+    for strat in ("file", "reader"):
+        vs.append({"name": "%s-cdef-ddef-multi-heap" % strat, "strat": strat, "chunk": "max", "cap": None, "dbuf": None, "cfg": "multi",
+                   "heap": 2})
     for strat in ("slice", "file"):
         vs.append({"name": "%s-c2-d4-plain" % strat, "strat": strat, "chunk": "max", "cap": 2, "dbuf": 4, "cfg": "plain"})
     return vs
